@@ -457,6 +457,7 @@ def positions(doc, kind):
             # same-origin targets only: a standard/library clash is a different fault (SCHEMA_LIBRARY_INVALID)
             out.append({"kind": kind, "sec": "tags", "idx": i, "target": "sibling"})
             out.append({"kind": kind, "sec": "tags", "idx": i, "target": "other"})
+            out.append({"kind": kind, "sec": "tags", "idx": i, "target": "sibling-other-case"})
     elif kind == "undeclared_attr":
         # every entry of EVERY section (the two definition sections included), with a name the schema declares
         # for another section ("elsewhere") and with a name it declares nowhere
@@ -473,7 +474,8 @@ def positions(doc, kind):
             if kind != "unknown_tag" and not long.endswith("/#"):
                 continue
             for nm in names:
-                out.append({"kind": kind, "sec": "tags", "idx": i, "attr": nm})
+                for val in ITEM_VALUES:
+                    out.append({"kind": kind, "sec": "tags", "idx": i, "attr": nm, "val": val})
     elif kind == "class_on_non_placeholder":
         for i, (el, long, par) in enumerate(doc.nodes):
             if not long.endswith("/#"):
@@ -483,29 +485,30 @@ def positions(doc, kind):
     elif kind == "deprecated_from":
         for sec in SECS:
             for i in range(len(doc.elems(sec))):
-                for how in ("unknown", "not_older"):
+                for how in DEPRECATED_VALUES:
                     out.append({"kind": kind, "sec": sec, "idx": i, "how": how})
     elif kind == "conversion_factor":
         for sec in ("units", "unitModifiers"):
             for i, el in enumerate(doc.elems(sec)):
                 if has_own(doc, el, "conversionFactor"):
-                    for val in ("0", "-1.0", "0.0", "-10^3", "-0", "0e5"):
+                    for val in FACTOR_VALUES:
                         out.append({"kind": kind, "sec": sec, "idx": i, "value": val})
     elif kind == "default_units":
         for i, el in enumerate(doc.uclasses):
             if has_own(doc, el, "defaultUnits"):
-                for how in ("foreign", "garbage"):
+                for how in ("foreign", "garbage", "plural", "other-case"):
                     out.append({"kind": kind, "sec": "unitClasses", "idx": i, "how": how})
     elif kind == "allowed_character":
         for sec in ("units", "unitModifiers", "valueClasses"):
             for i, el in enumerate(doc.elems(sec)):
                 if has_own(doc, el, "allowedCharacter"):
-                    for how in ("append", "replace"):
+                    for how in ("append", "replace", "other-case", "other-kind", "single-char", "valid"):
                         out.append({"kind": kind, "sec": sec, "idx": i, "how": how})
     elif kind == "in_library":
         for sec in SECS:
             for i in range(len(doc.elems(sec))):
-                out.append({"kind": kind, "sec": sec, "idx": i})
+                for val in LIBRARY_VALUES:
+                    out.append({"kind": kind, "sec": sec, "idx": i, "val": val})
     elif kind == "hed_id_range":
         for sec in SECS:
             for i, el in enumerate(doc.elems(sec)):
@@ -520,7 +523,59 @@ def positions(doc, kind):
     return out
 
 
-HED_ID_BOUNDS = ("zero", "one", "lo-1", "lo", "hi", "hi+1", "large")
+HED_ID_BOUNDS = ("zero", "one", "lo-1", "lo", "hi", "hi+1", "large", "malformed", "lower-case-prefix")
+# the seeded VALUE is stratified too: made up / a real name of the same kind that exists elsewhere / boundary spellings
+LIBRARY_VALUES = ("made-up", "other-released-library", "other-case", "no-value")
+ITEM_VALUES = ("made-up", "exists-in-another-schema", "other-case", "other-kind")
+DEPRECATED_VALUES = ("unknown", "not_older", "newer", "version-of-another-library", "malformed", "older")
+FACTOR_VALUES = ("0", "-1.0", "0.0", "-10^3", "-0", "0e5", "abc", "1e-400", "-inf", "nan", "1e-300", " 0 ", "inf")
+_known = None
+_other_names = {}
+
+
+def known_libraries():
+    """{library: [versions, newest first]} of the hed cache directory (what the implementation consults)."""
+    global _known
+    if _known is None:
+        from hed.schema import hed_cache
+        _known = G.known_versions(hed_cache.HED_CACHE_DIRECTORY)
+    return _known
+
+
+def names_elsewhere(doc, what):
+    """Names of kind `what` (tags / unitClasses / valueClasses) that some OTHER bundled schema has and this one lacks."""
+    key = (doc.library, doc.version, what)
+    if key not in _other_names:
+        def names(d):
+            if what == "tags":
+                return {l.rpartition("/")[2] for (_, l, _) in d.nodes if not l.endswith("#")}
+            return {e.find("name").text for e in d.elems(what)}
+        mine = {n.casefold() for n in names(doc)}
+        out = set()
+        for f in sorted(glob.glob(os.path.join(C.REPO, X.SCHEMA_DIR, "*.xml"))):
+            for n in names(Doc(open(f, encoding="utf8").read())):
+                if n.casefold() not in mine:
+                    out.add(n)
+        _other_names[key] = sorted(out)
+    return _other_names[key]
+
+
+def entry_library(doc, sec, el):
+    """(library the entry belongs to, version of the schema for that library) from the XML alone."""
+    a = doc.attr_el(el, "inLibrary") if sec not in ("attributes", "properties") else None
+    lib = a.find("value").text if a is not None and a.find("value") is not None else None
+    if lib is None:
+        lib = doc.library if not doc.with_standard else ""
+    if lib == doc.library:
+        return lib, doc.version
+    if lib == "" and doc.with_standard:
+        return lib, doc.with_standard
+    return lib, None
+
+
+def other_case(s):
+    t = s.swapcase()
+    return t if t != s else None
 _id_ranges = None
 
 
@@ -545,7 +600,7 @@ def apply_seed(doc, spec, rng):
     code = SPEC_CODE[kind]
     if kind == "dup_node":
         node, long, par = doc.nodes[idx]
-        if spec["target"] == "sibling":
+        if spec["target"] in ("sibling", "sibling-other-case"):
             tgt, tgt_long = par, long.rpartition("/")[0]
         else:
             cands = [(e, l) for (e, l, p) in doc.nodes if not l.endswith("#") and origin(doc, e) == origin(doc, node)
@@ -553,9 +608,14 @@ def apply_seed(doc, spec, rng):
             if not cands:
                 return None
             tgt, tgt_long = cands[rng.randrange(len(cands))]
+        if spec["target"] == "sibling-other-case":
+            # node names are compared case-insensitively: the same name in another case is a duplicate too
+            tgt, tgt_long = par, long.rpartition("/")[0]
+            if other_case(node.find("name").text) is None:
+                return None
         new = ET.SubElement(tgt, "node")
         nm = ET.SubElement(new, "name")
-        nm.text = node.find("name").text
+        nm.text = node.find("name").text if spec["target"] != "sibling-other-case" else other_case(node.find("name").text)
         for a in node.findall("attribute"):
             if a.find("name").text != "rooted":
                 new.append(copy.deepcopy(a))
@@ -580,8 +640,41 @@ def apply_seed(doc, spec, rng):
         return (sec, name, code)
     if kind in ("unknown_unit_class", "unknown_value_class", "unknown_tag"):
         a = doc.attr_el(el, spec["attr"])
-        bogus = {"unknown_unit_class": "nosuchUnitClass", "unknown_value_class": "nosuchValueClass",
-                 "unknown_tag": "No-such-tag"}[kind]
+        what = {"unknown_unit_class": "unitClasses", "unknown_value_class": "valueClasses", "unknown_tag": "tags"}[kind]
+        val = spec.get("val", "made-up")
+        spec["attr_name"] = spec["attr"]
+        if val == "made-up":
+            bogus = {"unknown_unit_class": "nosuchUnitClass", "unknown_value_class": "nosuchValueClass",
+                     "unknown_tag": "No-such-tag"}[kind]
+        elif val == "exists-in-another-schema":
+            pool = names_elsewhere(doc, what)
+            if not pool:
+                return None
+            bogus = pool[rng.randrange(len(pool))]
+        elif val == "other-kind":
+            # a real name of a neighbouring kind: a unit class where a value class / tag is expected, and so on
+            src = {"tags": "unitClasses", "unitClasses": "valueClasses", "valueClasses": "unitClasses"}[what]
+            have = {e.find("name").text.casefold() for e in doc.elems(what)} if what != "tags" else \
+                   {l.rpartition("/")[2].casefold() for (_, l, _) in doc.nodes}
+            pool = [e.find("name").text for e in doc.elems(src) if e.find("name").text.casefold() not in have]
+            if not pool:
+                return None
+            bogus = pool[rng.randrange(len(pool))]
+        else:
+            # an existing, not deprecated name in another letter case: tags are looked up case-insensitively (no
+            # fault), unit and value classes by their exact name (a fault)
+            if what == "tags":
+                pool = [l.rpartition("/")[2] for (e2, l, _) in doc.nodes
+                        if not l.endswith("#") and "/" not in l and not has_own(doc, e2, "deprecatedFrom")]
+            else:
+                pool = [e.find("name").text for e in doc.elems(what) if not has_own(doc, e, "deprecatedFrom")]
+            pool = [n for n in pool if other_case(n)]
+            if not pool:
+                return None
+            bogus = other_case(pool[rng.randrange(len(pool))])
+            if what == "tags":
+                spec["expect"] = "silent"
+        spec["value"] = bogus
         if a is None:
             add_attr(el, spec["attr"], bogus)
             return (sec, name, code)
@@ -609,19 +702,70 @@ def apply_seed(doc, spec, rng):
             spec["subsumed_by_undeclared"] = True
             code = SPEC_CODE["undeclared_attr"]
     if kind == "deprecated_from":
-        if spec["how"] == "unknown":
+        how = spec["how"]
+        spec["attr_name"] = "deprecatedFrom"
+        lib, cur = entry_library(doc, sec, el)
+        mine = known_libraries().get(lib, [])
+        if how == "unknown":
             val = "99.0.0"
-        else:
+        elif how == "malformed":
+            val = "8.3"
+        elif how == "not_older":
             lib_entry = origin(doc, el)
             val = doc.version if (lib_entry or not doc.with_standard) else doc.with_standard
+        elif how == "newer":
+            # a released version of the entry's library that is NEWER than the schema
+            newer = [v for v in mine if cur and G.vkey(v) > G.vkey(cur)]
+            if not newer:
+                return None
+            val = newer[rng.randrange(len(newer))]
+        elif how == "version-of-another-library":
+            # a version that exists -- but only for another library
+            others = sorted({v for k, vs in known_libraries().items() if k != lib for v in vs if v not in mine})
+            if not others:
+                return None
+            val = others[rng.randrange(len(others))]
+        else:
+            # positive control: a released, strictly older version of the entry's library is no fault.  Only on
+            # entries without children (a child that is not deprecated is reported with the same code).
+            older = [v for v in mine if cur and G.vkey(v) < G.vkey(cur)]
+            childless = (sec in ("units", "unitModifiers", "valueClasses")
+                         or (sec == "tags" and not el.findall("node")))
+            if not older or not childless:
+                return None
+            val = older[rng.randrange(len(older))]
+            if not spec.get("subsumed_by_undeclared"):
+                spec["expect"] = "silent"
+        spec["value"] = val
         set_attr(doc, el, "deprecatedFrom", val)
         return (sec, name, code)
     if kind == "conversion_factor":
+        # the statement: a conversion factor that is not a positive number (Python's float of the text, '^' read
+        # as the exponent marker the way the validator reads it)
+        spec["attr_name"] = "conversionFactor"
+        try:
+            ok = float(spec["value"].replace("^", "e")) > 0.0 or spec["value"].strip().lower() in ("nan", "+nan", "-nan")
+        except ValueError:
+            ok = False
+        if ok:
+            spec["expect"] = "silent"
         set_attr(doc, el, "conversionFactor", spec["value"])
         return (sec, name, code)
     if kind == "default_units":
+        spec["attr_name"] = "defaultUnits"
+        plain = [u.find("name").text for u in el.findall("unit")
+                 if not has_own(doc, u, "unitSymbol") and not has_own(doc, u, "deprecatedFrom")]
         if spec["how"] == "garbage":
             val = "nosuchunit"
+        elif spec["how"] in ("plural", "other-case"):
+            # positive controls: units that are not symbols are recognised in the plural and in any letter case
+            if not plain:
+                return None
+            u = plain[rng.randrange(len(plain))]
+            val = G.plural(u.lower()) if spec["how"] == "plural" else other_case(u)
+            if not val:
+                return None
+            spec["expect"] = "silent"
         else:
             # a unit of ANOTHER class that cannot be read as modifier + (plural of) a unit of this class
             mine = {u.find("name").text.lower() for u in el.findall("unit")}
@@ -637,14 +781,42 @@ def apply_seed(doc, spec, rng):
         return (sec, name, code)
     if kind == "allowed_character":
         a = doc.attr_el(el, "allowedCharacter")
-        if spec["how"] == "append":
-            v = ET.SubElement(a, "value")
-            v.text = "nosuchclass"
-        else:
+        how = spec["how"]
+        spec["attr_name"] = "allowedCharacter"
+        if how == "replace":
             a.findall("value")[0].text = "letterz"
+        else:
+            if how == "other-kind":
+                if not doc.vclasses:
+                    return None
+                txt = doc.vclasses[rng.randrange(len(doc.vclasses))].find("name").text   # a value class, not a character class
+            else:
+                txt = {"append": "nosuchclass", "other-case": "Letters", "single-char": "x", "valid": "digits"}[how]
+            if how in ("single-char", "valid"):
+                spec["expect"] = "silent"      # a single character and a known character class are allowed values
+            v = ET.SubElement(a, "value")
+            v.text = txt
         return (sec, name, code)
     if kind == "in_library":
-        set_attr(doc, el, "inLibrary", "otherlib")
+        val = spec.get("val", "made-up")
+        spec["attr_name"] = "inLibrary"
+        header = doc.library.split(",")
+        if val == "made-up":
+            txt = "otherlib"
+        elif val == "other-released-library":
+            # the name of a library that IS released -- but is not a library of this schema's header
+            pool = sorted(k for k in known_libraries() if k and k not in header)
+            if not pool:
+                return None
+            txt = pool[rng.randrange(len(pool))]
+        elif val == "other-case":
+            if not doc.library or other_case(doc.library) is None:
+                return None
+            txt = other_case(doc.library)
+        else:
+            txt = None                           # the attribute without a value
+        spec["value"] = txt
+        set_attr(doc, el, "inLibrary", txt)
         return (sec, name, code)
     if kind == "hed_id_range":
         if "value" not in spec:
@@ -655,10 +827,15 @@ def apply_seed(doc, spec, rng):
             if rg is None:
                 return None
             lo, hi = rg
-            v = {"zero": 0, "one": 1, "lo-1": lo - 1, "lo": lo, "hi": hi, "hi+1": hi + 1, "large": 9999999}[spec["bound"]]
-            spec["value"] = "HED_%07d" % v
             spec["library"] = lib
-            spec["expect"] = "reported" if (v < lo or v > hi) else "silent"
+            spec["attr_name"] = "hedId"
+            if spec["bound"] in ("malformed", "lower-case-prefix"):
+                spec["value"] = "HED_12ab" if spec["bound"] == "malformed" else "hed_%07d" % lo
+            else:
+                v = {"zero": 0, "one": 1, "lo-1": lo - 1, "lo": lo, "hi": hi, "hi+1": hi + 1,
+                     "large": 9999999}[spec["bound"]]
+                spec["value"] = "HED_%07d" % v
+                spec["expect"] = "reported" if (v < lo or v > hi) else "silent"
         set_attr(doc, el, "hedId", spec["value"])
         return (sec, name, code)
     if kind == "hed_id_changed":
@@ -870,13 +1047,14 @@ def oracle_seed(r, res, stats):
     if isinstance(on, dict):
         res.report("seeded-fault-reported", case, f"check_compliance raised {on}", fid=classify_known(r))
     elif spec.get("expect") == "silent":
-        # a boundary value INSIDE the id range is no fault: nothing may be reported for the hedId
-        hit = [i for i in on if i[0] == code and i[2] == sec and i[3] == name and i[4] == "hedId"]
+        # positive controls / boundary values that are NO fault (an id inside the range, a tag in another letter
+        # case, a plural unit, an older released version ...): nothing may be reported for that attribute
+        hit = [i for i in on if i[0] == code and i[2] == sec and i[3] == name and i[4] == spec.get("attr_name", "hedId")]
         if hit:
-            res.report("in-range-hed-id-accepted", case, f"hedId {spec['value']} lies in the range of library "
-                       f"{spec.get('library')!r} but was reported: {hit[:3]}")
+            res.report("in-range-hed-id-accepted" if kind == "hed_id_range" else "valid-value-accepted", case,
+                       f"{spec.get('attr_name')}={spec.get('value')!r} is no fault but was reported: {hit[:3]}")
         else:
-            stats["reported"]["hed_id_range(in range, silent)"] += 1
+            stats["reported"][kind + "(valid value, silent)"] += 1
     else:
         hit = [i for i in on if i[0] == code and (sec == "-" or (i[2] == sec and i[3] == name))]
         if not hit:
@@ -1005,15 +1183,22 @@ def plan(tier, seed, proof_ok):
                     lib = a.find("value").text if a is not None and a.find("value") is not None else ""
                     groups[(p["sec"], lib)].append(p["idx"])
                 chosen = []
+                full = set()
                 for (sec_g, lib_g), idxs in sorted(groups.items()):
                     k_g = max(1, per_kind // 5)
                     for i_g in (idxs if len(idxs) <= k_g else rng.sample(idxs, k_g)):
-                        chosen += [{"kind": kind, "sec": sec_g, "idx": i_g, "bound": b} for b in HED_ID_BOUNDS]
+                        # every boundary value once per library range; elsewhere (quick) a sample of them
+                        if tier == "quick" and lib_g in full:
+                            bounds = ["zero"] + rng.sample(HED_ID_BOUNDS[1:], 3)
+                        else:
+                            bounds = HED_ID_BOUNDS
+                        full.add(lib_g)
+                        chosen += [{"kind": kind, "sec": sec_g, "idx": i_g, "bound": b} for b in bounds]
                 for p in chosen:
                     jobs.append((f, p, rng.randrange(1 << 30)))
                     counts[kind] += 1
                 continue
-            n = min(len(pos), per_kind * (3 if kind in ("undeclared_attr", "deprecated_from", "dup_node") else 1))
+            n = min(len(pos), per_kind * (3 if kind in ("undeclared_attr", "deprecated_from") else 2 if kind == "dup_node" else 1))
             for p in stratified(doc, pos, n, rng, every_stratum=per_kind >= 5):
                 jobs.append((f, p, rng.randrange(1 << 30)))
                 counts[kind] += 1
@@ -1028,20 +1213,32 @@ def plan(tier, seed, proof_ok):
     return files, elig, jobs, counts, seedable
 
 
+def variant_of(p):
+    return "/".join(str(p[k]) for k in ("where", "how", "target", "val", "bound", "value", "attr") if p.get(k) not in (None, "*"))
+
+
 def stratified(doc, pos, n, rng, every_stratum=True):
-    """n positions, at least one from every stratum = (section, entry kind by the attributes the entry already has
-    [deprecated / rooted / placeholder / library / takes-value-parent / plain], variant of the seed)."""
+    """about n positions such that every ENTRY stratum = (section, entry kind by the attributes the entry already has
+    [deprecated / rooted / placeholder / library / takes-value-parent / plain], 'where' of an undeclared name) and
+    every VALUE variant of the seed (made up / real name from elsewhere / boundary spelling ...) occurs at least once
+    (each on its own; not their product)."""
     if n >= len(pos):
         return list(pos)
-    groups = collections.defaultdict(list)
+    by_entry = collections.defaultdict(list)
+    by_value = collections.defaultdict(list)
     for p in pos:
-        variant = p.get("where") or p.get("how") or p.get("target") or ""
-        groups[(p["sec"], doc.stratum(p["sec"], p["idx"]), variant)].append(p)
+        by_entry[(p["sec"], doc.stratum(p["sec"], p["idx"]), p.get("where", ""))].append(p)
+        by_value[variant_of(p)].append(p)
     if not every_stratum:
         # small budget: a random sample plus one position of each rare entry kind
-        rare = [g[rng.randrange(len(g))] for k, g in sorted(groups.items()) if k[1] in ("deprecated", "rooted")]
+        rare = [g[rng.randrange(len(g))] for k, g in sorted(by_entry.items()) if k[1] in ("deprecated", "rooted")]
         return rng.sample(pos, n) + rare
-    chosen = [g[rng.randrange(len(g))] for _, g in sorted(groups.items())]
+    chosen = [g[rng.randrange(len(g))] for _, g in sorted(by_entry.items())]
+    have = {variant_of(p) for p in chosen}
+    for v, g in sorted(by_value.items()):
+        if v not in have:
+            # a few tries: some variants are not seedable at every position
+            chosen += [g[rng.randrange(len(g))] for _ in range(2)]
     ids = {id(p) for p in chosen}
     rest = [p for p in pos if id(p) not in ids]
     extra = n - len(chosen)
@@ -1069,6 +1266,8 @@ CORPUS = [
     ("HED8.3.0.xml", {"kind": "undeclared_attr", "sec": "valueClasses", "idx": 0, "attr": "takesValue", "flag": True,
                       "where": "elsewhere"}, 1),
     ("HED8.3.0.xml", {"kind": "in_library", "sec": "tags", "idx": 0}, 1),
+    ("HED8.3.0.xml", {"kind": "in_library", "sec": "units", "idx": 1, "val": "other-released-library"}, 1),
+    ("HED_score_2.0.0.xml", {"kind": "in_library", "sec": "tags", "idx": 149, "val": "other-released-library"}, 1),
     ("HED8.3.0.xml", {"kind": "dup_node", "sec": "tags", "idx": 1, "target": "sibling"}, 1),
     ("HED8.1.0.xml", {"kind": "deprecated_from", "sec": "units", "idx": 2, "how": "not_older"}, 1),
 ]
@@ -1145,6 +1344,7 @@ def run(tier, seed, res, model_ok=True, proof_ok=True):
             sp = r["spec"]
             strata_hist[f"{sp['kind']}|{sp['sec']}|{_docs[k].stratum(sp['sec'], sp['idx'])}"
                         + (f"|{sp['where']}" if sp.get("where") else "")] += 1
+            strata_hist[f"{sp['kind']}|value:{sp.get('val') or sp.get('how') or sp.get('bound') or sp.get('target') or sp.get('value') or '-'}"] += 1
     n_seeded = sum(1 for r in seeded if "impl" in r)
     distinct = len({(r["key"], json.dumps(r["spec"], sort_keys=True)) for r in seeded if "impl" in r})
     return {
